@@ -1051,7 +1051,12 @@ class QvmCpu:
         # gives up the procedures the error occurred in: what they left
         # on the operand stack lies on top of the GOSUB return address
         # and has to go first.
+        # (Only the handler's own RETURN, executed on the module-level
+        # frame, does that - not a RETURN inside a procedure the handler
+        # calls.)
         if self.error_handler_active and \
+           self.cur_frame is not None and \
+           self.cur_frame.prev_frame is None and \
            self.trapped_frame is not None and \
            self.trapped_frame is not self.cur_frame:
             self._unwind_statement()
